@@ -110,14 +110,32 @@ Section Lower.
       + (* = *) inv_bind H. injection Hb0 as <- <- _.
         eexists _, _. split; [reflexivity|]. unfold lower_post, interp_one, o_var, o_op, o_num; cbn [fst snd numval op_sem].
         repeat split; auto using set_keeps_loaded. intros k. apply set_rd.
-      + (* + *) inv_bind H. injection Hb0 as <- <- _.
+      + (* + *) destruct (z =? INT_MIN) eqn:Emin.
+        { injection H as <- <- _.
+          assert (Hz : sc st (int_score nm z) = Some z) by (apply Hl, Hsub; now left).
+          exists (fst (do_op st v (sop_of_opc PAdd) (int_score nm z))), (snd (do_op st v (sop_of_opc PAdd) (int_score nm z))).
+          split; [rewrite exec_op1; now destruct (do_op st v _ (int_score nm z))|].
+          destruct (do_op_rest st v (sop_of_opc PAdd) (int_score nm z)) as [R1 R2].
+          unfold lower_post, interp_one, o_var, o_op, o_num; cbn [fst snd numval].
+          repeat split; auto; [|apply do_op_keeps_loaded; auto; discriminate].
+          intros k. rewrite do_op_rd by discriminate. unfold rdf at 2, rd. now rewrite Hz. }
+        inv_bind H. injection Hb0 as <- <- _.
         destruct (0 <=? z) eqn:Ez.
         * eexists _, _. split; [reflexivity|]. unfold lower_post, interp_one, o_var, o_op, o_num; cbn [fst snd numval op_sem].
           repeat split; auto using set_keeps_loaded. intros k. rewrite set_rd. reflexivity.
         * eexists _, _. split; [reflexivity|]. unfold lower_post, interp_one, o_var, o_op, o_num; cbn [fst snd numval op_sem].
           repeat split; auto using set_keeps_loaded. intros k. rewrite set_rd.
           unfold rdf. replace (rd (sc st) v - - z) with (rd (sc st) v + z) by lia. reflexivity.
-      + (* - *) inv_bind H. injection Hb0 as <- <- _.
+      + (* - *) destruct (z =? INT_MIN) eqn:Emin.
+        { injection H as <- <- _.
+          assert (Hz : sc st (int_score nm z) = Some z) by (apply Hl, Hsub; now left).
+          exists (fst (do_op st v (sop_of_opc PSub) (int_score nm z))), (snd (do_op st v (sop_of_opc PSub) (int_score nm z))).
+          split; [rewrite exec_op1; now destruct (do_op st v _ (int_score nm z))|].
+          destruct (do_op_rest st v (sop_of_opc PSub) (int_score nm z)) as [R1 R2].
+          unfold lower_post, interp_one, o_var, o_op, o_num; cbn [fst snd numval].
+          repeat split; auto; [|apply do_op_keeps_loaded; auto; discriminate].
+          intros k. rewrite do_op_rd by discriminate. unfold rdf at 2, rd. now rewrite Hz. }
+        inv_bind H. injection Hb0 as <- <- _.
         destruct (0 <=? z) eqn:Ez.
         * eexists _, _. split; [reflexivity|]. unfold lower_post, interp_one, o_var, o_op, o_num; cbn [fst snd numval op_sem].
           repeat split; auto using set_keeps_loaded. intros k. rewrite set_rd. reflexivity.
@@ -218,7 +236,10 @@ Lemma lower_one_wf nm o c i tg :
 Proof.
   destruct o as [[v op] n]. unfold lower_one. intros H. destruct n as [z|s].
   - destruct (FLOAT_EXACT <? Z.abs z); [cbn in H; discriminate|].
-    destruct op; try (cbn in H; discriminate); inv_bind H; injection Hb0 as <- <- <-;
+    destruct op; try (cbn in H; discriminate);
+      try (destruct (z =? INT_MIN) eqn:Emin;
+           [injection H as <- <- <-; apply Z.eqb_eq in Emin; subst z; reflexivity|]);
+      inv_bind H; injection Hb0 as <- <- <-;
       apply tell_if_ok in Hb; subst; rewrite app_nil_r.
     + cbn. destruct (in_int32b z); reflexivity.
     + destruct (0 <=? z) eqn:Ez; cbn [wf_cmd load_ints map forallb]; rewrite andb_true_r.
